@@ -251,7 +251,7 @@ def _run(chk, wd, proved):
     # ---------------- family E: dispatch attempt after every fragment
     e_streams = [s for s in streams if 2 <= len(s) <= 4]
     rng.shuffle(e_streams)
-    e_streams = e_streams[:(150 if quick else 4000)]
+    e_streams = e_streams[:(110 if quick else 4000)]
     for toks in e_streams:
         stream = b''.join(toks)
         for start in STARTS:
@@ -311,12 +311,14 @@ def _run(chk, wd, proved):
     for sname, setup in sorted(s_setups.items()):
         d = depth if (quick or sname == 'both-ready') else 2
         for seq in itertools.product(base_ops, repeat=d):
+            if quick and sname == 'cold' and rng.random() < 0.5:
+                continue
             ops = [inst(o) for o in seq]
             cur['strip'] = bool(len(cases) % 2)
             add_case(2, 0, setup, ops, 'S-exh')
             evaluations += 1
             chk.dist('S-exh:' + sname)
-    nrand = 1000 if quick else 8000
+    nrand = 800 if quick else 8000
     for _ in range(nrand):
         n = rng.randrange(4, 14)
         ops = []
